@@ -29,11 +29,27 @@ QWidget {{
 }}
 """
 
+# sinks of every kind of type for bodies that yield no value (objects t, act, lab exist in DOC_SINKS)
+VALUE_SINKS = ["VObj {{ id: t2; ri: {body} }}", "VObj {{ id: t2; rs: {body} }}", "VObj {{ id: t2; rb: {body} }}", "VObj {{ id: t2; rd: {body} }}",
+               "VObj {{ id: t2; re: {body} }}", "VObj {{ id: t2; rp: {body} }}", "VObj {{ id: t2; rsl: {body} }}", "VObj {{ id: t2; rv: {body} }}",
+               "VObj {{ id: t2; font.pointSize: {body} }}", "VObj {{ id: t2; cursor: {body} }}", "QAction {{ id: t2; shortcut: {body} }}",
+               "VObj {{ id: t2; windowIcon.name: {body} }}", "QLabel {{ id: t2; pixmap: {body} }}", "QGraphicsView {{ id: t2; backgroundBrush: {body} }}",
+               "QColorDialog {{ id: t2; currentColor: {body} }}", "VObj {{ id: t2; sizePolicy.horizontalStretch: {body} }}"]
+DOC_SINKS = """import qmluic.QtWidgets
+QWidget {{
+    id: root
+    VObj {{ id: a }}
+    VObj {{ id: b0 }}
+    VObj {{ id: c0 }}
+    {binding}
+}}
+"""
+
 VARIANTS = [("value", "ret"), ("value", "completion"), ("value", "bare"), ("void", None)]
 
 
-def make_doc(skeleton, context, wrapper, label_style="const", void_expr="call", sink=None):
-    r = progs.Renderer(context, wrapper or "ret", label_style, void_expr)
+def make_doc(skeleton, context, wrapper, label_style="const", void_expr="call", sink=None, value_style="int"):
+    r = progs.Renderer(context, wrapper or "ret", label_style, void_expr, value_style)
     text, _ast = r.program(skeleton)
     name = sink or ("ri" if context == "value" else "onFired")
     return DOC.format(binding=f"{name}: {text}")
@@ -55,6 +71,9 @@ EXTRA = [
     ("value", "ri: { switch (a.b ? a.i : a.j) { case (a.c ? 1 : 2): return 1; default: return 2; } }"),
     ("value", "ri: { let x = 0; switch (a.i) { case 1: x = 1; case 2: x = x + 2; break; case 3: if (a.b) break; x = 3; default: x = x + 10; } return x; }"),
     ("value", "ri: { let p = a.p; if (p != null) { return p.i; } return 0; }"),
+    ("value", "ri: { let x = a.j; switch (a.i) { case 1: let x = 7; break; default: break; } return x; }"),
+    ("void", "onFired: { let x = 1; switch (a.i) { case 1: let x = 7; a.done(x); break; } a.done(x); }"),
+    ("void", "onFiredWith: function(x: int, y: QString) { switch (x) { case 1: let y = \"in\"; a.say(y); break; } a.say(y); }"),
     ("value", "ri: { let p = a.b ? a : b0; let q = a.c ? p : c0; return q.i + p.j; }"),
     ("void", "onFired: { let x = a.b ? 1 : 2; }"),
     ("void", "onFired: { let x = a.b ? 1 : 2; a.done(x); }"),
@@ -190,6 +209,24 @@ def shard_work(shard, nshards, payload):
             if k % nshards == shard:
                 judge(t, vd, f"member/{k}", make_doc(sk, "value", wr, sink="font.pointSize"),
                       {"context": "value", "wrapper": wr, "sink": "font.pointSize", "skeleton": repr(sk)})
+            k += 1
+    # string-valued bodies in which every constant is the same qsTr() call (equal sub-expressions at positions that
+    # do not dominate each other)
+    for sk in progs.skeletons(kmax - 1):
+        for wr in ("ret", "bare"):
+            if k % nshards == shard:
+                judge(t, vd, f"tr-same/{k}", make_doc(sk, "value", wr, sink="rs", value_style="tr-same"),
+                      {"context": "value", "wrapper": wr, "value_style": "tr-same", "skeleton": repr(sk)})
+            k += 1
+    # bodies that yield no value at all (effects only) bound to properties of every kind of type: must be refused;
+    # accepted => a value-returning function without a value
+    for sk in progs.skeletons(kmax - 1, conds=("c",)):
+        rr = progs.Renderer("void")
+        text, _ast = rr.program(sk)
+        for si, sink in enumerate(VALUE_SINKS):
+            if k % nshards == shard:
+                judge(t, vd, f"void-body/{k}", DOC_SINKS.format(binding=sink.format(body=text)),
+                      {"context": "value", "body": "void", "sink": sink.split(":")[0].strip(), "skeleton": repr(sk)})
             k += 1
     # case labels that span several basic blocks (?:, &&, ||), in every clause position
     for sk in progs.skeletons(kmax, conds=("c",)):
